@@ -127,12 +127,13 @@ def Downs.aids : Downs → List Nat
 mutual
 /-- local well-formedness: on every network the MACs of the stations, of the routers' ports and
     of the port `up` leading to the root are pairwise different; a router's adapters have
-    different ids -/
+    different ids and its local adapter is one of them -/
 def NetTree.wf (up : List Mac) : NetTree → Bool
   | .mk _ sts rs => decide ((up ++ sts.map (·.mac) ++ rs.upMacs).Nodup) && rs.wf
 def Routers.wf : Routers → Bool
   | .nil => true
-  | .cons ua _ _ _ ds rest => decide ((ua :: ds.aids).Nodup) && ds.wf && rest.wf
+  | .cons ua _ la _ ds rest =>
+      decide ((ua :: ds.aids).Nodup) && (ua :: ds.aids).contains la && ds.wf && rest.wf
 def Downs.wf : Downs → Bool
   | .nil => true
   | .cons _ mac sub rest => sub.wf [mac] && rest.wf
